@@ -3,6 +3,7 @@ package verifdemo
 import (
 	"errors"
 	"fmt"
+	"strings"
 	"testing"
 
 	"github.com/truora/minidyn/interpreter"
@@ -111,4 +112,55 @@ func TestC09EmbeddedNulIsRejected(t *testing.T) {
 	if c != nil || err == nil {
 		t.Errorf("expression with an embedded NUL followed by garbage: res=%v err=%v crash=%v, want a syntax error", r, err, c)
 	}
+}
+
+// C09: operands, BETWEEN bounds, list indexes and map members must be names or placeholders;
+// IN needs its parenthesised, non-empty list; a lone attribute in parentheses is not a condition.
+func TestC09OperandPositionsTakeNamesOnly(t *testing.T) {
+	vals := map[string]*types.Item{":x": s("x"), ":z": s("z")}
+	item := map[string]*types.Item{"a": s("x"), "flag": {BOOL: &tru}, "mm": {M: map[string]*types.Item{"k": s("x")}}}
+	for _, e := range []string{"a BETWEEN ( AND :z", "a BETWEEN :x AND )", "mm.= = :x", "a IN ()", "a IN :x :z)", "a IN a :x)", "(flag)", "mm[=] = :x", "a BETWEEN = AND :z"} {
+		used := map[string]*types.Item{}
+		for k, v := range vals {
+			if strings.Contains(e, k) {
+				used[k] = v
+			}
+		}
+		r, err, c := match(e, item, used, nil)
+		if c != nil || err == nil {
+			t.Errorf("%q: res=%v err=%v crash=%v, want a syntax error", e, r, err, c)
+		}
+	}
+	li := interpreter.Language{}
+	for _, e := range []string{"SET a = :x ADD", "SET a = :x REMOVE", "REMOVE a SET"} {
+		it := map[string]*types.Item{"a": s("x")}
+		if err := li.Update(interpreter.UpdateInput{TableName: "t", Expression: e, Item: it, Attributes: map[string]*types.Item{":x": s("y")}}); err == nil {
+			t.Errorf("%q accepted", e)
+		}
+	}
+}
+
+// C06: size of collections, paths into scalars, document paths as IN/BETWEEN operands, empty binary values.
+func TestC06MoreSemantics(t *testing.T) {
+	one, two := n("1"), n("2")
+	item := map[string]*types.Item{"s": s("x"), "l": {L: []*types.Item{s("a"), s("b")}}, "m": {M: map[string]*types.Item{"k": s("x"), "n": one}},
+		"ss": {SS: []*string{types.ToString("p"), types.ToString("q")}}, "eb": {B: []byte{}}}
+	check := func(expr string, vals map[string]*types.Item, want bool) {
+		t.Helper()
+		r, err, c := match(expr, item, vals, nil)
+		if c != nil || err != nil || r != want {
+			t.Errorf("%q: res=%v err=%v crash=%v, want %v", expr, r, err, c, want)
+		}
+	}
+	check("size(l) = :n", map[string]*types.Item{":n": two}, true)
+	check("size(ss) = :n", map[string]*types.Item{":n": two}, true)
+	check("size(m) > :n", map[string]*types.Item{":n": one}, true)
+	check("m.k.x = :v", map[string]*types.Item{":v": s("x")}, false)
+	check("attribute_not_exists(m.k.x)", nil, true)
+	check("m.k[0] <> :v", map[string]*types.Item{":v": s("x")}, true)
+	check("m.k IN (:v, :w)", map[string]*types.Item{":v": s("x"), ":w": s("y")}, true)
+	check("l[1] IN (:v)", map[string]*types.Item{":v": s("a")}, false)
+	check("m.n BETWEEN :a AND :b", map[string]*types.Item{":a": one, ":b": two}, true)
+	check("s = :v", map[string]*types.Item{":v": s("x")}, true) // the item holds an empty binary
+	check("attribute_type(eb, :t)", map[string]*types.Item{":t": s("B")}, true)
 }
